@@ -153,7 +153,8 @@ Qed.
 Definition is_query (o : op) : bool :=
   match o with
   | Put _ _ | Remove _ | Clear | ForeachRemove _ _ | IterNew _ _ | IterHasNext _ | IterNext _
-  | IterRemove _ | SetValueAt _ _ _ | EntryEquals _ _ _ _ | IterSetValue _ _ => false
+  | IterRemove _ | SetValueAt _ _ _ | EntryEquals _ _ _ _ | IterSetValue _ _
+  | IterNewAt _ _ _ _ | ForeachPut _ _ _ => false
   | _ => true
   end.
 
@@ -340,6 +341,46 @@ Proof.
     rewrite dir_irrefl in Hafter. discriminate.
 Qed.
 
+Lemma step_foreach_put ms ss i k v : Inv ms ss -> step_ok ms ss (ForeachPut i k v).
+Proof.
+  intros HI. unfold step_ok. cbn [mstep sstep]. rewrite (inv_lookup _ _ k HI), (inv_list _ _ HI).
+  destruct ((0 <=? i) && (i <? Z.of_nat (length (s_list ss)))); [|split; [exact HI|reflexivity]].
+  destruct (sl_lookup k (s_list ss)) eqn:Ek; cbn [fst snd out_agree].
+  - split; [apply inv_put_replace; [exact HI|congruence]|].
+    rewrite inorder_put by exact (inv_bst _ _ HI). rewrite (inv_list _ _ HI). reflexivity.
+  - split; [apply inv_put_new; assumption|reflexivity].
+Qed.
+
+Lemma filter_ext_in' {A} (f g : A -> bool) l : (forall x, f x = g x) -> filter f l = filter g l.
+Proof. intros H. induction l as [|x l IH]; cbn; [reflexivity|]. rewrite H, IH. reflexivity. Qed.
+
+Lemma step_iter_new_at ms ss kind slot acc k : Inv ms ss -> step_ok ms ss (IterNewAt kind slot acc k).
+Proof.
+  intros HI. unfold step_ok. cbn [mstep sstep].
+  destruct (kind_ok kind); [|split; [exact HI|reflexivity]].
+  cbn [fst snd out_agree]. split; [|reflexivity]. apply inv_upd; [exact HI|].
+  rewrite (inv_access _ _ acc k HI).
+  set (asc := kind_asc kind).
+  pose proof (dsorted_dir asc _ (inv_sorted _ _ HI)) as S.
+  cbn [iter_rel mi_kind mi_last mi_exp mi_next si_kind si_last si_exp si_pending].
+  destruct (sl_access acc k (s_list ss)) as [[k0 v0]|] eqn:Ea.
+  - apply sl_access_in in Ea. apply (in_map fst) in Ea. cbn [fst] in Ea. fold (keys (s_list ss)) in Ea.
+    assert ((if asc then filter (fun x => k0 <=? x) (map fst (s_list ss))
+             else filter (fun x => x <=? k0) (rev (map fst (s_list ss)))) =
+            from (dir_ltb asc) (Some k0) (dir_list asc (keys (s_list ss)))) as Hp.
+    { unfold from, dir_ltb, dir_list, keys. destruct asc; apply filter_ext_in'; intros x; unfold gtb;
+        [rewrite Z.leb_antisym|rewrite Z.leb_antisym]; reflexivity. }
+    fold asc. rewrite Hp. cbn [okey option_map fst].
+    assert (In k0 (dir_list asc (keys (s_list ss)))) as Hin by (apply in_dir; exact Ea).
+    repeat split; auto.
+    + apply (inv_ver _ _ HI).
+    + symmetry. apply (from_some_hd _ (dir_irrefl asc) (dir_trans asc) (Some k0)); assumption.
+    + rewrite (inv_ver _ _ HI). lia.
+  - cbn [okey option_map hd_error]. repeat split; auto.
+    + apply (inv_ver _ _ HI).
+    + rewrite (inv_ver _ _ HI). lia.
+Qed.
+
 (* ------------------------------------------------------------------ every operation, every sequence *)
 Lemma step_refines ms ss o : Inv ms ss -> step_ok ms ss o.
 Proof.
@@ -356,6 +397,8 @@ Proof.
   - apply step_set_value_at; exact I.
   - apply step_entry_equals; exact I.
   - apply step_iter_set_value; exact I.
+  - apply step_iter_new_at; exact I.
+  - apply step_foreach_put; exact I.
 Qed.
 
 Fixpoint outs_agree (ops : list op) (mo so : list out) : Prop :=
